@@ -3,6 +3,7 @@ package main
 // Per-function verification: entry state, body, postconditions, discharge.
 
 import (
+	"math/big"
 	"fmt"
 	"go/ast"
 	"os"
@@ -53,6 +54,7 @@ type FuncResult struct {
 // VerifyFunction generates and returns the obligations of one function.
 func VerifyFunction(P *Program, S *Specs, key string) (res *FuncResult) {
 	res = &FuncResult{Key: key}
+	termBounds = map[*Term][2]*big.Int{} // bounds are facts of one function's symbolic values
 	x := NewExec(P, S, key)
 	x.closures = map[*Term]*closure{}
 	x.usedFuncs = map[string]bool{}
@@ -172,12 +174,14 @@ func VerifyFunction(P *Program, S *Specs, key string) (res *FuncResult) {
 					}
 					o := x.oblige("ensures", e.Tags, rs.st.pc, g, pos, e.Text)
 					o.Reveal = e.Reveal
+					o.By = e.By
 					o.Slow = e.Slow
 					o.Name = fmt.Sprintf("%s/ensures#%d", x.Key, k+1)
 					if e.Label != "" {
 						o.Name = fmt.Sprintf("%s/ensures#%s", x.Key, e.Label)
 					}
 					o.FileID = ri + 1
+					o.Node = rs.n
 				}
 			}
 		}
@@ -226,9 +230,49 @@ func (o *Obligation) SMT() string {
 	if !o.IsCanary {
 		goal = append(goal, Not(o.Goal))
 	}
-	for _, a := range coneOfInfluence(x.assumes[:o.NAssume], goal) {
+	pool := x.assumes[:o.NAssume]
+	if o.Node != nil {
+		// path-conditional facts from nodes that do not reach this one cannot matter
+		kept := make([]Assumption, 0, len(pool))
+		for _, a := range pool {
+			if a.Node == nil || ancestorOf(a.Node, o.Node) {
+				kept = append(kept, a)
+			}
+		}
+		pool = kept
+	}
+	var goalVals map[string]bool
+	if o.near {
+		goalVals = valueSyms(o.Goal)
+	}
+	for _, a := range coneOfInfluence(pool, goal) {
 		if (o.IsCanary || o.relaxed) && hasQuantifier(a.Fact) {
 			continue // reachability is checked against the quantifier-free part
+		}
+		if o.lemmas && hasQuantifier(a.Fact) {
+			// second attempt: of the quantified facts only those the clause names (by=<id> of a body assertion)
+			named := false
+			for _, b := range o.By {
+				if a.Label == b {
+					named = true
+				}
+			}
+			if !named {
+				continue
+			}
+		}
+		if o.near && hasQuantifier(a.Fact) {
+			// first attempt: only the quantified facts that speak about a value the goal mentions
+			hit := false
+			for sym := range valueSyms(a.Fact) {
+				if goalVals[sym] {
+					hit = true
+					break
+				}
+			}
+			if !hit {
+				continue
+			}
 		}
 		s.Asserts = append(s.Asserts, Implies(a.PC, a.Fact))
 	}
@@ -268,7 +312,46 @@ func (d *Discharger) Run(obls []*Obligation) {
 				if o.FileID > 0 {
 					fname += fmt.Sprintf(".r%d", o.FileID)
 				}
-				o.Res = Solve(d.Dir, fname, o.smtText, d.Timeout, d.All)
+				// staged: fewer assumptions first (a refutation from a subset of the assumptions is
+				// a refutation), the full set last; only the full query can give a model
+				if !o.IsCanary && !d.All {
+					if o.smtQF != "" {
+						t := d.Timeout
+						if t > 5 {
+							t = 5
+						}
+						r := Solve(d.Dir, fname+".qf", o.smtQF, t, false)
+						if r.Answer == "unsat" {
+							r.Solver += " (quantifier-free part)"
+							o.Res = r
+							continue
+						}
+						if r.Answer == "sat" {
+							o.qfModel = r.Model
+						}
+					}
+					if o.smtLemmas != "" {
+						r := Solve(d.Dir, fname+".lemmas", o.smtLemmas, d.Timeout, false)
+						if r.Answer == "unsat" {
+							r.Solver += " (by the named assertions)"
+							o.Res = r
+							continue
+						}
+					}
+					if o.smtNear != "" {
+						r := Solve(d.Dir, fname+".near", o.smtNear, d.Timeout, false)
+						if r.Answer == "unsat" {
+							r.Solver += " (nearby quantified facts)"
+							o.Res = r
+							continue
+						}
+					}
+				}
+				t := d.Timeout
+				if o.IsCanary && t < 40 {
+					t = 40 // a model of a whole path can take one solver a while; nothing else waits for it
+				}
+				o.Res = Solve(d.Dir, fname, o.smtText, t, d.All)
 			}
 		}()
 	}
@@ -284,6 +367,29 @@ func (d *Discharger) Run(obls []*Obligation) {
 				}
 			}()
 			o.smtText = o.SMT()
+			if !o.IsCanary && !d.All {
+				o.relaxed = true
+				o.smtQF = o.SMT()
+				o.relaxed = false
+				if o.smtQF == o.smtText {
+					o.smtQF = "" // nothing quantified among the assumptions
+				} else {
+					if len(o.By) > 0 {
+						o.lemmas = true
+						o.smtLemmas = o.SMT()
+						o.lemmas = false
+						if o.smtLemmas == o.smtText || o.smtLemmas == o.smtQF {
+							o.smtLemmas = ""
+						}
+					}
+					o.near = true
+					o.smtNear = o.SMT()
+					o.near = false
+					if o.smtNear == o.smtText || o.smtNear == o.smtQF {
+						o.smtNear = ""
+					}
+				}
+			}
 		}()
 		if o.smtText == "" {
 			continue
@@ -302,6 +408,11 @@ func (d *Discharger) Run(obls []*Obligation) {
 		}
 	}
 	for _, o := range retry {
+		if o.qfModel != "" {
+			o.Res.Model = o.qfModel
+			o.RelaxedModel = true
+			continue
+		}
 		o.relaxed = true
 		txt := o.SMT()
 		o.relaxed = false
@@ -320,6 +431,37 @@ func writeFileMk(path, content string) {
 }
 
 var _ = time.Now
+
+// valueSyms: the non-array variables of a term (symbolic values, as opposed to heap regions).
+var valMemo = map[*Term]map[string]bool{}
+
+func valueSyms(t *Term) map[string]bool {
+	if m, ok := valMemo[t]; ok {
+		return m
+	}
+	m := map[string]bool{}
+	seen := map[*Term]bool{}
+	var walk func(x *Term)
+	walk = func(x *Term) {
+		if seen[x] {
+			return
+		}
+		seen[x] = true
+		// (parameters and the allocation clock occur everywhere: they say nothing about nearness)
+		if x.Op == "var" && (x.S == SInt || x.S == SBool) && !strings.HasPrefix(x.Name, "in.") && !strings.HasPrefix(x.Name, "$clock") && !strings.HasPrefix(x.Name, "clock!") {
+			m[x.Name] = true
+		}
+		if d, ok := namedDef[x]; ok {
+			walk(d) // a name stands for the values of the term it abbreviates
+		}
+		for _, a := range x.Args {
+			walk(a)
+		}
+	}
+	walk(t)
+	valMemo[t] = m
+	return m
+}
 
 // symbolsOf collects variable and function names of a term (memoised).
 var symMemo = map[*Term]map[string]bool{}
